@@ -475,7 +475,7 @@ class SymEnv:
             s.add(*self.p.pc)
             s.add(neg)
             txt = s.to_smt2()
-            ob.smt = txt if len(txt) < 6000 else txt[:6000] + "\n; ... truncated"
+            ob.smt = txt if len(txt) < 400000 else None
         self.obligations.append(ob)
         return r == "unsat"
 
